@@ -137,19 +137,19 @@ func ClassOf(p string) Class {
 // have passed, at most Count times (0 = unlimited) and, if Until > 0, only
 // while the fake time since disk creation is below Until.
 type Fault struct {
-	Name    string  `json:"name"`
-	Kinds   uint32  `json:"kinds"`   // bit mask over OpKind
-	Classes uint32  `json:"classes"` // bit mask over Class; 0 = any
+	Name    string `json:"name"`
+	Kinds   uint32 `json:"kinds"`   // bit mask over OpKind
+	Classes uint32 `json:"classes"` // bit mask over Class; 0 = any
 	// PathPrefix, if set, restricts the rule to paths with this prefix (one
 	// "device" of several directories on the simulated disk).
-	PathPrefix string `json:"path_prefix,omitempty"`
-	Skip    int     `json:"skip"`
-	Count   int     `json:"count"`
-	From    int64   `json:"from_ns,omitempty"`
-	Until   int64   `json:"until_ns,omitempty"`
-	Errno   string  `json:"errno"`           // "EIO" | "ENOSPC"
-	Short   bool    `json:"short,omitempty"` // writes: apply a prefix, then fail
-	Prob    float64 `json:"prob,omitempty"`  // if >0, fire with this probability (own PRNG stream)
+	PathPrefix string  `json:"path_prefix,omitempty"`
+	Skip       int     `json:"skip"`
+	Count      int     `json:"count"`
+	From       int64   `json:"from_ns,omitempty"`
+	Until      int64   `json:"until_ns,omitempty"`
+	Errno      string  `json:"errno"`           // "EIO" | "ENOSPC"
+	Short      bool    `json:"short,omitempty"` // writes: apply a prefix, then fail
+	Prob       float64 `json:"prob,omitempty"`  // if >0, fire with this probability (own PRNG stream)
 	// Delay, if >0, makes the operation sleep for this long on the fake clock
 	// instead of failing (stall injection).
 	DelayNs int64 `json:"delay_ns,omitempty"`
@@ -413,8 +413,14 @@ func (d *Disk) pre(kind OpKind, p string) (bool, error) {
 		d.OnFault()
 	}
 	simrt.Note("fsfault " + kind.String() + " " + p)
+	if DebugFaults != nil {
+		DebugFaults("fsfault " + kind.String() + " " + p + " rule=" + hit.Name)
+	}
 	return short, err
 }
+
+// DebugFaults, if set, is told about every injected error (debug runs only).
+var DebugFaults func(string)
 
 // appendLog records a mutation; d.mu is held.
 func (d *Disk) appendLog(op Op) {
